@@ -93,6 +93,18 @@ def run(model: Model, rep: Report) -> None:
         g = guard_conjuncts(fn, loops[0], innermost=True)
         extra = sorted(x for x in g if x not in ("isinstance(char1,int)", "isinstance(char2,int)", "len(r)==3", "3==len(r)", "len(r)==5", "5==len(r)"))
         r12.check(not extra, site(fn, loops[0]), fn.qualname, "range loop runs under isinstance(char1, int) and isinstance(char2, int) only", why=f"further condition(s) {extra}: a valid range that fails them is skipped and its CIDs fall back to DW")
+    r14 = rep.rule("C07-R14", "SIBLING", "W and W2 readers agree: every element of the array is resolved (it may be an indirect reference) before the number / array dispatch", 2)
+    for fn in (gw, gw2):
+        outer = [n for n in fn.node.body if isinstance(n, ast.For) and isinstance(n.target, ast.Name)]  # type: ignore[attr-defined]
+        if not outer:
+            raise AnchorMissing(f"{fn.qualname}: loop over the array not found")
+        lp = outer[0]
+        v = lp.target.id
+        it = "".join(unparse(lp.iter).split())
+        resolved_iter = it in (f"map(resolve1,{fn.params[0]})", f"(resolve1(x)forxin{fn.params[0]})", f"[resolve1(x)forxin{fn.params[0]}]")
+        first = lp.body[0] if lp.body else None
+        resolved_first = isinstance(first, ast.Assign) and len(first.targets) == 1 and unparse(first.targets[0]) == v and "".join(unparse(first.value).split()) == f"resolve1({v})"
+        r14.check(resolved_iter or resolved_first, site(fn, lp), fn.qualname, f"`{v} = resolve1({v})` is the first thing done with an element", why=f"an element of the array that is an indirect reference is neither a number nor a list for the isinstance dispatch and is skipped: the entries after it are attached to the wrong CIDs (the sibling reader resolves its elements)")
     r13 = rep.rule("C07-R13", "GUARD", "Unicode source of a CID font without ToUnicode: the embedded TrueType cmap is consulted only for the Adobe-Identity / Adobe-UCS orderings (where CID = glyph id); every other collection uses its own CID-to-Unicode map", 2)
     ci = model.func(F + "PDFCIDFont.__init__")
     tt = [c for c in walk_no_nested(ci.node) if isinstance(c, ast.Call) and (dotted(c.func) or "").endswith("create_unicode_map")]
